@@ -5,7 +5,7 @@
    influence-set function are arbitrary (Section variables).  Hypotheses = the
    domain of the property: nodes of G distinct, rates >= 0, influence sets
    inside G, and [influence_covers]. *)
-From EoNV Require Import Prelude Samp Graph ListDict ListDictP Gillespie KldP Complex ComplexP.
+From EoNV Require Import Prelude Samp Graph ListDict ListDictP Gillespie KldP Complex ComplexP ComplexRefine.
 
 Section C15.
 Variable g : graph.
@@ -123,6 +123,19 @@ Theorem C15_missing_ic_is_keyerror : forall (ic : node -> option N) fuel ds tr u
   fst (exec (complex g rate choice infl rstats tmin tmax full ic fuel) ds tr) = Err KeyErr.
 Proof. exact (complex_missing_ic g rate choice infl rstats tmin tmax full). Qed.
 
+(* refinement to the textbook direct method: for EVERY draw script the program of
+   Model/Complex.v (incremental bookkeeping) and [scomplex], which before every
+   draw recomputes every rate from scratch with the user's function on the
+   current statuses (waiting rate = their sum over all nodes; candidates = the
+   nodes whose current rate is positive, weighted by it; no bookkeeping
+   structure is read), return the same result and make the same calls to the
+   random source with the same arguments (rationals up to ==) *)
+Theorem C15_refines_direct_method : forall (ic : node -> option N) fuel ds tr,
+  let impl := exec (complex g rate choice infl rstats tmin tmax full ic fuel) ds tr in
+  let spec := exec (scomplex g rate choice infl rstats tmin tmax full ic fuel) ds tr in
+  fst impl = fst spec /\ Forall2 call_eq (snd impl) (snd spec).
+Proof. exact (complex_refines g rate choice infl rstats tmin tmax full Hnd rate_nonneg infl_in covers). Qed.
+
 End C15.
 
 (* ---- non-vacuity: the hypotheses are satisfiable by non-trivial models ---- *)
@@ -164,6 +177,7 @@ Print Assumptions C15_stop.
 Print Assumptions C15_rows_track_statuses.
 Print Assumptions C15_every_run.
 Print Assumptions C15_missing_ic_is_keyerror.
+Print Assumptions C15_refines_direct_method.
 Print Assumptions C15_family_covers.
 Print Assumptions C15_family_rates_nonneg.
 Print Assumptions C15_example_hypotheses.
